@@ -58,6 +58,17 @@ def classFind (e : Env) (c : Nat) (p : Name) : Option Nat :=
 
 def objFor (e : Env) (p : Path) : Option Nat := dget e.st.all p
 
+/-- the inherited-member step of `expandName` (since fix d230b6e): the first class of `obj.mro()`
+that defines the name (its qualified name) or imports it in its body (the alias target) decides -/
+def classLookup (e : Env) (c : Nat) (p : Name) : Option Path :=
+  (mroOf e c).findSome? fun b =>
+    match getObj e.st b with
+    | some bo =>
+      match dget bo.contents p with
+      | some i => some ((path e.st i).getD [p])
+      | none => dget bo.aliases p
+    | none => none
+
 /-- what one component of a dotted name is looked up as: `_localNameToFullName(p)`, except that an
 attribute of a class (`i != 0`) which the class neither defines nor imports is NOT looked up in the
 scopes enclosing the class statement (`full_name = p`; the inherited members are tried next) -/
@@ -81,8 +92,8 @@ def expandLoop (e : Env) : Nat → Bool → List Name → Option Path
             match getObj e.st obj with
             | some o =>
               if o.cls = .cls then
-                match classFind e obj p with
-                | some i => (path e.st i).getD [p]
+                match classLookup e obj p with
+                | some q => q
                 | none => [p]
               else [p]
             | none => [p]
